@@ -5,9 +5,11 @@ import (
 	"crypto/ecdsa"
 	"crypto/elliptic"
 	"crypto/rand"
+	"crypto/sha256"
 	"crypto/tls"
 	"crypto/x509"
 	"crypto/x509/pkix"
+	"encoding/hex"
 	"encoding/json"
 	"math/big"
 	"net"
@@ -88,6 +90,16 @@ func SplitTok(v string) (pre, tok string) {
 		return v[:i], v[i+1:]
 	}
 	return "", v
+}
+
+// Compact is the projection of LONG values shared with the renderers: a string of more than 160 bytes is logged as its
+// first 40 bytes, its length and a SHA-256 digest of the whole -- equal projections mean equal strings (trusted: SHA-256).
+func Compact(v string) string {
+	if len(v) <= 160 {
+		return v
+	}
+	h := sha256.Sum256([]byte(v))
+	return v[:40] + "...#len=" + strconv.Itoa(len(v)) + "#sha256=" + hex.EncodeToString(h[:12])
 }
 
 func StartGRPC(rec *Rec) *Target { return StartGRPCNamed(rec, "target", true) }
@@ -249,7 +261,7 @@ func (t *Target) intercept(ctx context.Context, req interface{}, info *grpc.Unar
 			s = string(b)
 		}
 		pre, tok := SplitTok(s)
-		fields = append(fields, E{"f": k, "v": s, "pre": pre, "tok": tok})
+		fields = append(fields, E{"f": k, "v": Compact(s), "pre": Compact(pre), "tok": tok})
 		if pre != "" {
 			toks = append(toks, tok)
 			pres = append(pres, pre)
@@ -275,7 +287,7 @@ func (t *Target) intercept(ctx context.Context, req interface{}, info *grpc.Unar
 			}
 			for _, v := range md[k] {
 				pre, tok := SplitTok(v)
-				mds = append(mds, E{"k": k, "v": v, "pre": pre, "tok": tok})
+				mds = append(mds, E{"k": k, "v": Compact(v), "pre": Compact(pre), "tok": tok})
 				if pre != "" {
 					toks = append(toks, tok)
 					pres = append(pres, pre)
